@@ -1,4 +1,6 @@
 import ClusterVerif.Lemmas.C04
+import ClusterVerif.Model.C04Source
+import ClusterVerif.Gen.C04
 
 /-!
 # C04 — pin, unpin and update change the pinset exactly as requested, or not at all
@@ -254,5 +256,24 @@ example :
     holds exCfg exPre (.pin 3 exOpts) (step exCfg exPre (.pin 3 exOpts) [0, 1]).res
       (step exCfg exPre (.pin 3 exOpts) [0, 1]).post = true ∧
     holds exCfg exPre (.pin 3 exOpts) exPre.head? exPre = false := by decide
+
+/-! ### The anchored functions still read as the model was transcribed (regenerated from /repo on every run) -/
+
+theorem gen_source_pinPublic : Gen.pinPublic = Expected.pinPublic := rfl
+theorem gen_source_setupReplicationFactor : Gen.setupReplicationFactor = Expected.setupReplicationFactor := rfl
+theorem gen_source_setupPin : Gen.setupPin = Expected.setupPin := rfl
+theorem gen_source_pinInternal : Gen.pinInternal = Expected.pinInternal := rfl
+theorem gen_source_unpin : Gen.unpin = Expected.unpin := rfl
+theorem gen_source_unpinClusterDag : Gen.unpinClusterDag = Expected.unpinClusterDag := rfl
+theorem gen_source_pinUpdate : Gen.pinUpdate = Expected.pinUpdate := rfl
+theorem gen_source_pinPath : Gen.pinPath = Expected.pinPath := rfl
+theorem gen_source_unpinPath : Gen.unpinPath = Expected.unpinPath := rfl
+theorem gen_source_checkPinType : Gen.checkPinType = Expected.checkPinType := rfl
+theorem gen_source_optsEquals : Gen.optsEquals = Expected.optsEquals := rfl
+theorem gen_source_pinEquals : Gen.pinEquals = Expected.pinEquals := rfl
+theorem gen_source_pinWithOpts : Gen.pinWithOpts = Expected.pinWithOpts := rfl
+theorem gen_source_isRemotePin : Gen.isRemotePin = Expected.isRemotePin := rfl
+theorem gen_source_expiredAt : Gen.expiredAt = Expected.expiredAt := rfl
+
 
 end CV.C04
